@@ -53,7 +53,8 @@ macro "ceil_tac" n:term "," f:term "," hf:term : tactic => `(tactic|
     | exact ceil_if $n $f $hf
     | rfl
     | (simp only [Aegean.Model.C15.nNodesHand]; exact ceil_if $n $f $hf)
-    | (simp only []
+    | ((try simp only [])
+       (try simp only [Aegean.Model.C15.nNodesHand])
        have h1 := Nat.div_add_mod $n $f
        have h2 := Nat.mod_lt $n $hf
        symm
@@ -71,11 +72,11 @@ theorem nyOf_ceil (rows cols f : Nat) (hf : 0 < f) : Gen.C15.nyOf rows cols f = 
 
 /-- BN_RPX1 is the residual of the row count (`cx = data.shape[0]`) -/
 theorem lcxOf_mod (rows cols f : Nat) : Gen.C15.lcxOf rows cols f = rows % f := by
-  unfold Gen.C15.lcxOf; rfl
+  unfold Gen.C15.lcxOf; first | rfl | (simp only []; done) | omega
 
 /-- BN_RPX2 is the residual of the column count -/
 theorem lcyOf_mod (rows cols f : Nat) : Gen.C15.lcyOf rows cols f = cols % f := by
-  unfold Gen.C15.lcyOf; rfl
+  unfold Gen.C15.lcyOf; first | rfl | (simp only []; done) | omega
 
 theorem gen_idx_laws : IdxLaws Gen.C15.nxOf Gen.C15.nyOf Gen.C15.lcxOf Gen.C15.lcyOf :=
   ⟨nxOf_ceil, nyOf_ceil, fun r c f _ => lcxOf_mod r c f, fun r c f _ => lcyOf_mod r c f⟩
@@ -84,7 +85,7 @@ theorem gen_idx_laws : IdxLaws Gen.C15.nxOf Gen.C15.nyOf Gen.C15.lcxOf Gen.C15.l
     `compress` never shifts the grid -/
 theorem nodeRow_eq (k r1 r2 f : Nat) (h64 : f ≤ 64) (h2 : r2 < f) : Gen.C15.nodeRow k r1 r2 f = k * f := by
   unfold Gen.C15.nodeRow
-  simp only []
+  try simp only []
   first
     | rw [float_offset_zero f h64 r2 h2, Nat.add_zero]
     | (simp only [Aegean.Model.C15.nodeHand]; rw [Nat.div_eq_of_lt h2, Nat.add_zero])
@@ -93,7 +94,7 @@ theorem nodeRow_eq (k r1 r2 f : Nat) (h64 : f ≤ 64) (h2 : r2 < f) : Gen.C15.no
 
 theorem nodeCol_eq (k r1 r2 f : Nat) (h64 : f ≤ 64) (h1 : r1 < f) : Gen.C15.nodeCol k r1 r2 f = k * f := by
   unfold Gen.C15.nodeCol
-  simp only []
+  try simp only []
   first
     | rw [float_offset_zero f h64 r1 h1, Nat.add_zero]
     | (simp only [Aegean.Model.C15.nodeHand]; rw [Nat.div_eq_of_lt h1, Nat.add_zero])
